@@ -3,6 +3,7 @@
 //     become simrt.Lock(&X, site) etc. (module-wide, see DESIGN.md section 4.5);
 //   - in the anchored files, simrt.Yield(site) is inserted before every statement
 //     that contains a call or touches state through a selector/index expression.
+//
 // It writes sites.tsv (site -> file:line, kind).
 package main
 
@@ -188,10 +189,100 @@ func rewriteRange(r *ast.RangeStmt) bool {
 	return true
 }
 
+func isSimrtCall(s ast.Stmt) bool {
+	es, ok := s.(*ast.ExprStmt)
+	if !ok {
+		return false
+	}
+	c, ok := es.X.(*ast.CallExpr)
+	if !ok {
+		return false
+	}
+	sel, ok := c.Fun.(*ast.SelectorExpr)
+	if !ok {
+		return false
+	}
+	id, ok := sel.X.(*ast.Ident)
+	return ok && id.Name == "simrt"
+}
+
+// bareBreak: does the statement list contain a `break` without label that would leave the enclosing select?
+func bareBreak(list []ast.Stmt) bool {
+	found := false
+	var visit func(n ast.Node) bool
+	visit = func(n ast.Node) bool {
+		switch x := n.(type) {
+		case *ast.ForStmt, *ast.RangeStmt, *ast.SwitchStmt, *ast.TypeSwitchStmt, *ast.SelectStmt, *ast.FuncLit:
+			return false // a break in there leaves that statement
+		case *ast.BranchStmt:
+			if x.Tok == token.BREAK && x.Label == nil {
+				found = true
+			}
+		}
+		return !found
+	}
+	for _, s := range list {
+		ast.Inspect(s, visit)
+	}
+	return found
+}
+
+var selectsRewritten, gosRewritten = 0, 0
+
+// rewriteSelect turns a blocking select (no default clause) into a polling loop the scheduler can see:
+//
+//	_simselN:
+//	for {
+//		select { case <first comm>: body; break _simselN; default: }
+//		select { case <second comm>: body; break _simselN; default: }
+//		simrt.Idle(site)            // blocked until another task has made a step
+//	}
+//
+// Cases are tried in source order, so which ready case is taken is a function of the schedule (Go's select picks
+// among ready cases at random).  Selects whose bodies `break` out of the select are left alone.
+func rewriteSelect(fset *token.FileSet, st *ast.SelectStmt) ast.Stmt {
+	for _, c := range st.Body.List {
+		cc := c.(*ast.CommClause)
+		if cc.Comm == nil || bareBreak(cc.Body) {
+			return nil
+		}
+	}
+	selectsRewritten++
+	label := ast.NewIdent(fmt.Sprintf("_simsel%d", selectsRewritten))
+	var body []ast.Stmt
+	for _, c := range st.Body.List {
+		cc := c.(*ast.CommClause)
+		// (positions are carried over so that the printer keeps the file's comments where they were)
+		one := &ast.CommClause{Case: cc.Case, Colon: cc.Colon, Comm: cc.Comm, Body: append(append([]ast.Stmt{}, cc.Body...), &ast.BranchStmt{TokPos: cc.End(), Tok: token.BREAK, Label: ast.NewIdent(label.Name)})}
+		body = append(body, &ast.SelectStmt{Select: cc.Case, Body: &ast.BlockStmt{Lbrace: cc.Case, Rbrace: cc.End(), List: []ast.Stmt{one, &ast.CommClause{Case: cc.End(), Colon: cc.End()}}}})
+	}
+	body = append(body, &ast.ExprStmt{X: simCall("Idle", newSite(fset, st.Pos(), "idle"))})
+	// (no yield inside the loop: a fruitless poll must be one step that ends in Idle, see simrt.loop)
+	return &ast.LabeledStmt{Label: label, Colon: st.Pos(), Stmt: &ast.ForStmt{For: st.Pos(), Body: &ast.BlockStmt{Lbrace: st.Body.Lbrace, Rbrace: st.Body.Rbrace, List: body}}}
+}
+
 func rewriteList(fset *token.FileSet, list []ast.Stmt) []ast.Stmt {
 	var out []ast.Stmt
 	for _, s := range list {
+		if isSimrtCall(s) {
+			out = append(out, s)
+			continue
+		}
 		switch st := s.(type) {
+		case *ast.GoStmt:
+			// go func() {...}()  ->  simrt.Go(func() {...}): the goroutine becomes a scheduled task
+			if fl, ok := st.Call.Fun.(*ast.FuncLit); ok && !locksOnly && len(st.Call.Args) == 0 && len(fl.Type.Params.List) == 0 {
+				gosRewritten++
+				out = append(out, &ast.ExprStmt{X: simCall("Yield", newSite(fset, s.Pos(), "go"))}, &ast.ExprStmt{X: simCall("Go", fl)})
+				continue
+			}
+		case *ast.SelectStmt:
+			if !locksOnly {
+				if ns := rewriteSelect(fset, st); ns != nil {
+					out = append(out, &ast.ExprStmt{X: simCall("Yield", newSite(fset, st.Pos(), "select"))}, ns)
+					continue
+				}
+			}
 		case *ast.ExprStmt:
 			if recv, name, ok := lockCall(st.X); ok {
 				out = append(out, &ast.ExprStmt{X: simCall(name, &ast.UnaryExpr{Op: token.AND, X: recv}, newSite(fset, s.Pos(), name))})
@@ -211,7 +302,6 @@ func rewriteList(fset *token.FileSet, list []ast.Stmt) []ast.Stmt {
 	}
 	return out
 }
-
 
 // anchored files (relative to the repository root) that get yield points
 var anchored = []string{
@@ -299,5 +389,5 @@ func main() {
 		sitesOut[i] = strings.Replace(sitesOut[i], *root+"/", "", 1)
 	}
 	os.WriteFile(*sites, []byte(strings.Join(sitesOut, "\n")+"\n"), 0644)
-	fmt.Printf("instrumented: %d sites\n", site)
+	fmt.Printf("instrumented: %d sites, %d go statements, %d selects\n", site, gosRewritten, selectsRewritten)
 }
